@@ -467,6 +467,16 @@ func runConc(t *testing.T, rc *RunCtx, prop string) {
 	}
 	w = newW1Pop(t, rc, cfg, nil, pop)
 	defer w.close()
+	if !bulk && ch.Pick(2, 0) == 1 {
+		// The keys have been used before (one generic signature each, outside the checked history): whatever
+		// the locker keeps per key already exists when the concurrent requests arrive.
+		w.s.Direct(func() {
+			for k := 0; k < nKeys; k++ {
+				(&Op{Kind: "gen", Client: "client1", Entries: []Entry{GenEntry(k, MkDomain([4]byte{7, 0, 0, 0}, 3), uint64(800000+k))}}).Exec(w.inst)
+			}
+		})
+		rc.Stats.Inc("runs_with_keys_used_before", 1)
+	}
 	w.abandon = abandon
 	w.submit(ops)
 	outcome := w.s.Run()
